@@ -72,8 +72,8 @@ pub fn session(authorized: bool, scenario: u8) -> (Sim, Vec<Vec<Bytes>>) {
             while sim.deliver_s2c(ATTACKER, ch, 0) {}
         }
     }
-    for kind in [CK::Ev, CK::Unord, CK::Unrel, CK::Map, CK::Trig, CK::List] {
-        sim.step(&Step::EmitC { client: ATTACKER, kind, refslot: 0, refslot2: Some(1) });
+    for kind in [CK::Ev, CK::Unord, CK::Unrel, CK::Map, CK::Trig, CK::List, CK::Unit, CK::Unit] {
+        sim.step(&Step::EmitC { client: ATTACKER, kind, refslot: 0, refslot2: if sim.seq % 2 == 0 { Some(1) } else { None } });
     }
     sim.client_frame(ATTACKER);
     for ch in 0..sim.ckinds.len() {
@@ -97,6 +97,13 @@ pub fn inject(sim: &mut Sim, msgs: &[(usize, Vec<u8>)]) -> Option<Fail> {
 /// Same, optionally with genuine events of the well-behaved client queued BEHIND the attacker's messages on every
 /// event channel in the same server frame: a malformed message must not swallow what follows it.
 pub fn inject_with_honest(sim: &mut Sim, msgs: &[(usize, Vec<u8>)], with_honest: bool) -> Option<Fail> {
+    inject_full(sim, msgs, with_honest, false)
+}
+
+/// `attacker_silent`: every one of `msgs` is a STRICT PREFIX of a genuine message of the attacker's own client. A message
+/// format that is read front to back makes the same decisions on the prefix as on the whole message until the bytes run
+/// out, so a strict prefix is never a valid message: it has to be discarded, i.e. server logic sees no event of the attacker.
+pub fn inject_full(sim: &mut Sim, msgs: &[(usize, Vec<u8>)], with_honest: bool, attacker_silent: bool) -> Option<Fail> {
     let id = sim.clients[ATTACKER].id;
     let honest = sim.clients[HONEST].id;
     let mut expected: Vec<(CK, u32)> = Vec::new();
@@ -133,6 +140,16 @@ pub fn inject_with_honest(sim: &mut Sim, msgs: &[(usize, Vec<u8>)], with_honest:
                     format!("event {e:?} of the well-behaved client, queued in the same frame behind the attacker's message, never reached server logic (seen {seen:?})"),
                 ));
             }
+        }
+    }
+    if attacker_silent {
+        if let Some(e) = sim.from_log[before..].iter().find(|e| e.2 == id) {
+            let e = *e;
+            sim.from_log.clear();
+            return Some(Fail::new(
+                "C06.malformed_accepted",
+                format!("a truncated genuine message ({:?}) was not discarded: server logic saw a {:?} event (seq {}) of the attacker", msgs.iter().map(|m| (m.0, m.1.clone())).collect::<Vec<_>>(), e.0, e.1),
+            ));
         }
     }
     sim.from_log.clear();
@@ -250,6 +267,9 @@ pub struct Case {
     /// the attacker's connection is closed in the same backend pass that read its last messages
     #[serde(default)]
     pub close_after_last: bool,
+    /// (channel, captured message, cut): after the generated frames one strict prefix of a genuine message is sent alone
+    #[serde(default)]
+    pub probe: Option<(u16, u16, u16)>,
 }
 
 pub fn run_mutated(c: &Case) -> Outcome {
@@ -292,9 +312,27 @@ pub fn run_mutated(c: &Case) -> Outcome {
             return Outcome::failed(f);
         }
     }
+    let mut probed = false;
+    if let (Some((chan, base, cut)), false) = (c.probe, c.close_after_last) {
+        // event channels only (a prefix of an acknowledgement message can be a shorter list of acknowledgements)
+        let ch = 1 + pick(chan, nch - 1);
+        if !captured[ch].is_empty() {
+            let base = captured[ch][pick(base, captured[ch].len())].to_vec();
+            if !base.is_empty() {
+                let bytes = base[..pick(cut, base.len())].to_vec();
+                probed = true;
+                if let Some(f) = inject_full(&mut sim, &[(ch, bytes)], true, true) {
+                    return Outcome::failed(f);
+                }
+            }
+        }
+    }
     let mut out = Outcome::ok();
     out.nontrivial = nontrivial;
     out.classes.push(if c.authorized { "authorized_sender" } else { "unauthorized_sender" });
+    if probed {
+        out.classes.push("strict_prefix_of_a_genuine_message");
+    }
     out
 }
 
@@ -312,8 +350,8 @@ fn mut_strategy() -> impl Strategy<Value = Mut> {
 fn case_strategy() -> impl Strategy<Value = Case> {
     let msg = (any::<u16>(), any::<u16>(), proptest::bool::weighted(0.25), proptest::collection::vec(mut_strategy(), 0..5))
         .prop_map(|(chan, base, from_scratch, muts)| MsgSpec { chan, base, from_scratch, muts });
-    (any::<bool>(), 0u8..6, proptest::collection::vec(proptest::collection::vec(msg, 1..4), 1..3), proptest::bool::weighted(0.25))
-        .prop_map(|(authorized, scenario, frames, close_after_last)| Case { authorized, scenario, frames, close_after_last })
+    (any::<bool>(), 0u8..6, proptest::collection::vec(proptest::collection::vec(msg, 1..4), 1..3), proptest::bool::weighted(0.25), proptest::option::weighted(0.6, (any::<u16>(), any::<u16>(), any::<u16>())))
+        .prop_map(|(authorized, scenario, frames, close_after_last, probe)| Case { authorized, scenario, frames, close_after_last, probe })
 }
 
 /// Exhaustive layer: every byte string of length 0..=len on one channel, sharing a session.
